@@ -226,6 +226,10 @@ def run(ctx, tier):
     delete_rule(ctx, I)
     update_rule(ctx, I)
     writers_rule(ctx, I)
+    ctx.rule('C12.R7', 'mayShrinkRegionsWhilePrinting is refreshed from the stored setting on every path of the settings '
+                       'handler, exceptional ones included', floor=2)
+    from .rules_c11 import settings_refresh_rule
+    settings_refresh_rule(ctx, make_interp(ctx.model), 'C12.R7', 'mayShrinkRegionsWhilePrinting')
     geometry_rule(ctx)
     # the containment predicates the guard relies on (same rules as C17.R1/R3/R4)
     from . import rules_c17
